@@ -174,10 +174,27 @@ cmd_move(const json_t *arg, json_t *stk, json_t *cur, json_t *lst)
 static bool
 cmd_trunc(const json_t *arg, json_t *stk, json_t *cur, json_t *lst)
 {
-    size_t i = json_integer_value(arg);
+    json_int_t n = json_integer_value(arg);
+    size_t i = 0;
     size_t s;
 
-    for (s = json_array_size(cur); s > i; s--) {
+    if (!json_is_array(cur))
+        return false;
+
+    s = json_array_size(cur);
+    if (n < 0) {
+        /* -t -#: discard the last # items */
+        size_t m = (size_t) 0 - (size_t) n;
+
+        if (m > s)
+            return false;
+
+        i = s - m;
+    } else {
+        i = (size_t) n;
+    }
+
+    for (; s > i; s--) {
         if (json_array_remove(cur, s - 1) < 0)
             return false;
     }
